@@ -97,4 +97,5 @@ CombosRight(n, maxc) ==
      /\ Cardinality({AsSet(cs[a]) : a \in 1..Len(cs)}) = Len(cs)
      /\ \A a \in 1..(Len(cs) - 1) : Len(cs[a]) <= Len(cs[a + 1])
 EnumerationRight == \A n \in 1..4 : \A maxc \in 1..5 : CombosRight(n, maxc)
+ASSUME EnumerationRight        \* constant level: evaluated once when TLC loads the module
 =============================================================================
